@@ -314,13 +314,28 @@ func init() {
 		// ---- math/rand ----
 		"math/rand.NewSource": func(in *Interp, _ *frame, _ token.Pos, _ []Value) Value { return Iface{} },
 		"math/rand.New":       func(in *Interp, _ *frame, _ token.Pos, _ []Value) Value { return (*Value)(nil) },
+		"math/rand.Intn": func(in *Interp, _ *frame, _ token.Pos, args []Value) Value {
+			if !in.randNondet {
+				return in.ts.Const(64, 0)
+			}
+			t := in.freshVar(64, "rand")
+			in.record("rand", t)
+			in.assume(in.ts.And(in.ts.Cmp(OSLe, in.ts.Const(64, 0), t), in.ts.Cmp(OSLt, t, args[0].(*Term))), "rand.Intn range")
+			return t
+		},
 		"(*math/rand.Rand).Int": func(in *Interp, _ *frame, _ token.Pos, _ []Value) Value {
+			if !in.randNondet {
+				return in.ts.Const(64, 1) // deterministic unless the harness asks for nondeterministic randomness
+			}
 			t := in.freshVar(64, "rand")
 			in.record("rand", t)
 			in.assume(in.ts.Cmp(OSLe, in.ts.Const(64, 0), t), "rand.Int >= 0")
 			return t
 		},
 		"(*math/rand.Rand).Intn": func(in *Interp, _ *frame, _ token.Pos, args []Value) Value {
+			if !in.randNondet {
+				return in.ts.Const(64, 0)
+			}
 			t := in.freshVar(64, "rand")
 			in.record("rand", t)
 			in.assume(in.ts.And(in.ts.Cmp(OSLe, in.ts.Const(64, 0), t), in.ts.Cmp(OSLt, t, args[1].(*Term))), "rand.Intn range")
